@@ -8,11 +8,12 @@ package main
 //   layout       QCount, PCount, S2C/Mod1/C2S LevelQ, Mod1 depth of NewParametersFromLiteral
 //   generated    Galois elements of the key set returned by GenEvaluationKeys
 //   required     Galois elements requested (logging rlwe.EvaluationKeySet) during one Bootstrap
+//   needed       LevelQ / LevelP the evaluator needs from every key kind over all admissible input levels
 //   inventory    every key of the bundle: name / secrets it decrypts under / LevelQ / LevelP
 //   stages       levels after ModUp, CoeffsToSlots, EvalMod, SlotsToCoeffs
 //   output       level and scale of the bootstrapped ciphertext
 // Probes (property predicates evaluated on the real code):
-//   sparse_key_confined, sparse_secret_recovered, keys_sufficient, required_stable, output_level_scale,
+//   key_levels_sufficient, inadmissible_rejected, sparse_key_confined, sparse_secret_recovered, keys_sufficient, required_stable, output_level_scale,
 //   bootstrap_precision (measured), c2s_s2c_inverse (measured), batch_bootstrap (measured),
 //   shallowcopy_matches (copies of the evaluator), no_p_keygen, defaults_instantiable,
 //   no_identity_galois_key,
@@ -20,6 +21,7 @@ package main
 
 import (
 	"os"
+	"strconv"
 	"fmt"
 	"math"
 	"math/big"
@@ -591,8 +593,38 @@ func c18Configs(c *Ctx) []c18Cfg {
 		if d.name == "N15QP768H192H32" {
 			adj = nil // Q[0] has 33 bits for a scale of 2^25: no room for a larger message ratio at level 0
 		}
-		out = append(out, c18Cfg{name: d.name, res: r, btp: b, ratioAdj: adj, minPrec: 10, thorough: i >= 2 && os.Getenv("C18_ALL") == ""})
+		out = append(out, c18Cfg{name: d.name, res: r, btp: b, ratioAdj: adj, minPrec: 10, thorough: i >= 3 && os.Getenv("C18_ALL") == ""})
 	}
+
+	// 8b. Q[0] smaller than the EvalMod scale: ModUp's message-scaling block runs (scalar = 2^60/2^55 = 32,
+	// resp. 2^10); with and without encapsulation, same ring and ring switch; with a 50-bit Q[0] and the
+	// enlarged message ratio level 0 is inadmissible and ScaleDown must RESCALE (not truncate) a level-1 input
+	q55 := base()
+	q55.LogQ = []int{55, 40}
+	out = append(out, c18Cfg{name: "q0_55_eph", res: q55, btp: bootstrapping.ParametersLiteral{LogN: utils.Pointy(logN)}, ratioAdj: adj16, batch: 2})
+	q55n := base()
+	q55n.LogQ = []int{55, 40}
+	q55n.Xs = ring.Ternary{H: 32}
+	out = append(out, c18Cfg{name: "q0_55_noeph", res: q55n, btp: bootstrapping.ParametersLiteral{LogN: utils.Pointy(logN), EphemeralSecretWeight: utils.Pointy(0)}, ratioAdj: adj16})
+	q50 := base()
+	q50.LogQ = []int{50, 40, 40}
+	out = append(out, c18Cfg{name: "q0_50_rescale", res: q50, btp: bootstrapping.ParametersLiteral{LogN: utils.Pointy(logN)}, ratioAdj: adj16})
+	q50rs := base()
+	q50rs.LogQ = []int{50, 40}
+	q50rs.LogNthRoot = logN + 1
+	q50rs.LogN = logN - 1
+	out = append(out, c18Cfg{name: "q0_50_ringswitch", res: q50rs, btp: bootstrapping.ParametersLiteral{LogN: utils.Pointy(logN)}, ratioAdj: adj16, batch: 2})
+	q50rs3 := base()
+	q50rs3.LogQ = []int{50, 40, 40}
+	q50rs3.LogNthRoot = logN + 1
+	q50rs3.LogN = logN - 1
+	out = append(out, c18Cfg{name: "q0_50_ringswitch3_noeph", res: q50rs3, btp: bootstrapping.ParametersLiteral{LogN: utils.Pointy(logN), Xs: ring.Ternary{H: 32}, EphemeralSecretWeight: utils.Pointy(0)}, ratioAdj: adj16})
+	q50ci := base()
+	q50ci.LogQ = []int{50, 40}
+	q50ci.LogNthRoot = logN + 1
+	q50ci.LogN = logN - 1
+	q50ci.RingType = ring.ConjugateInvariant
+	out = append(out, c18Cfg{name: "q0_50_conjinv", res: q50ci, btp: bootstrapping.ParametersLiteral{LogN: utils.Pointy(logN)}, ratioAdj: adj16})
 
 	// 9. iterated bootstrapping with a reserved prime on 128-bit-precision residual parameters (HighPrecision)
 	hp := bootstrapping.DefaultParametersSparse[0].SchemeParams
@@ -726,6 +758,51 @@ func c18Pipeline(c *Ctx, cfg c18Cfg) {
 		c.Probe("sparse_key_confined", fmt.Sprintf("%s keys=%d sparse_only=%d", tag, len(entries), nSparse), "C18-sparse-key-level", detail)
 	}
 
+	// ---- key levels: what the evaluator needs from every key over all admissible input levels
+	// (switch keys at the residual maximum, EvkDenseToSparse at (0,0), EvkSparseToDense and the Galois keys on
+	// the full chain with the LevelP of the linear transformations, rlk from Mod1.LevelQ); needs are read off
+	// the evaluator-side parameters, the model derives them from the level layout
+	{
+		needQ := map[string]int{
+			"EvkN1ToN2": res.MaxLevel(), "EvkN2ToN1": res.MaxLevel(), "EvkRealToCmplx": res.MaxLevel(), "EvkCmplxToReal": res.MaxLevel(),
+			"EvkDenseToSparse": 0, "EvkSparseToDense": paramsN2.QCount() - 1, "rlk": p.Mod1ParametersLiteral.LevelQ,
+			"gk": utils.Max(p.CoeffsToSlotsParameters.LevelQ, utils.Max(p.SlotsToCoeffsParameters.LevelQ, paramsN2.MaxLevel())),
+		}
+		needP := map[string]string{
+			"EvkN1ToN2": "*", "EvkN2ToN1": "*", "EvkRealToCmplx": "*", "EvkCmplxToReal": "*", "rlk": "*",
+			"EvkDenseToSparse": "0", "EvkSparseToDense": I(paramsN2.PCount() - 1), "gk": I(p.CoeffsToSlotsParameters.LevelP),
+		}
+		var tb []string
+		for _, n := range []string{"EvkN1ToN2", "EvkN2ToN1", "EvkRealToCmplx", "EvkCmplxToReal", "EvkDenseToSparse", "EvkSparseToDense", "rlk", "gk"} {
+			tb = append(tb, fmt.Sprintf("%s/%d/%s", n, needQ[n], needP[n]))
+		}
+		rsv := p.IterationsParameters != nil && p.IterationsParameters.ReservedPrimeBitSize > 0
+		logp := "def"
+		if cfg.btp.LogP != nil {
+			logp = I(len(cfg.btp.LogP))
+		}
+		c.Emit(fmt.Sprintf("needed res=%d s2c=%d c2s=%d m1=%d rsv=%s logp=%s", res.QCount(), len(p.SlotsToCoeffsParameters.Levels),
+			len(p.CoeffsToSlotsParameters.Levels), p.Mod1ParametersLiteral.Depth(), b01(rsv), logp), strings.Join(tb, ";"))
+		detail := ""
+		for _, e := range entries {
+			f := strings.Split(e, "/")
+			kind := f[0]
+			if strings.HasPrefix(kind, "gk") {
+				kind = "gk"
+			}
+			lq, _ := strconv.Atoi(f[2])
+			if lq < needQ[kind] {
+				detail = fmt.Sprintf("key %s has LevelQ=%d, the evaluator uses it up to level %d (the gadget product would silently clamp)", f[0], lq, needQ[kind])
+				break
+			}
+			if np := needP[kind]; (np != "*" && f[3] != np) || (np == "*" && strings.HasPrefix(f[3], "-")) {
+				detail = fmt.Sprintf("key %s has LevelP=%s, needed %s", f[0], f[3], np)
+				break
+			}
+		}
+		c.Probe("key_levels_sufficient", fmt.Sprintf("%s keys=%d", tag, len(entries)), "C18-key-level-too-low", detail)
+	}
+
 	// ---- evaluator with logging key set
 	eval, err := bootstrapping.NewEvaluator(p, evk)
 	must(err)
@@ -754,7 +831,33 @@ func c18Pipeline(c *Ctx, cfg c18Cfg) {
 		p.Mod1ParametersLiteral.Depth(), b01(p.IterationsParameters != nil && p.IterationsParameters.ReservedPrimeBitSize > 0))
 	var firstReq []uint64
 	first := true
+	// level 0 is admissible only if Q[0]/scale >= MessageRatio/2 (ScaleDown cannot scale up otherwise)
+	dsc := res.DefaultScale()
+	q0OverScale := new(big.Float).Quo(new(big.Float).SetUint64(res.Q()[0]), &dsc.Value)
+	lvl0ok := q0OverScale.Cmp(new(big.Float).SetFloat64(eval.Mod1Parameters.MessageRatio()/2)) >= 0
+	firstLevel := minLevel
+	if !lvl0ok && firstLevel == 0 {
+		firstLevel = 1
+	}
 	for level := minLevel; level <= res.MaxLevel(); level++ {
+		if level == 0 && !lvl0ok {
+			pt := ckks.NewPlaintext(res, 0)
+			must(ecd.Encode(c18Vals(c, 1<<maxCtSlots, ci), pt))
+			ct, err := enc.EncryptNew(pt)
+			must(err)
+			st := Try(func() string {
+				if _, e := eval.Bootstrap(ct); e != nil {
+					return "err"
+				}
+				return "ok"
+			})
+			detail := ""
+			if st != "err" {
+				detail = "an input whose message ratio cannot be reached is not rejected: " + st
+			}
+			c.Probe("inadmissible_rejected", tag+" level=0", "C18-inadmissible-accepted", detail)
+			continue
+		}
 		for _, ls := range slotChoices {
 			vals := c18Vals(c, 1<<ls, ci)
 			pt := ckks.NewPlaintext(res, level)
@@ -829,7 +932,7 @@ func c18Pipeline(c *Ctx, cfg c18Cfg) {
 	// ---- stage by stage (public stage methods), level-0 ciphertext with the maximum slot count
 	{
 		vals := c18Vals(c, 1<<maxCtSlots, ci)
-		pt := ckks.NewPlaintext(res, minLevel)
+		pt := ckks.NewPlaintext(res, firstLevel)
 		pt.LogDimensions = ring.Dimensions{Rows: 0, Cols: maxCtSlots}
 		must(ecd.Encode(vals, pt))
 		ct, err := enc.EncryptNew(pt)
@@ -879,14 +982,21 @@ func c18Pipeline(c *Ctx, cfg c18Cfg) {
 	}
 
 	// ---- batches of sparse ciphertexts, original evaluator and a ShallowCopy
-	if cfg.batch > 0 && maxCtSlots >= 2 {
+	batchLevels := []int{firstLevel}
+	if res.MaxLevel() > firstLevel {
+		batchLevels = append(batchLevels, res.MaxLevel()) // packing above level 0 (xPow2N1/xPow2N2 at all residual levels)
+	}
+	for _, blevel := range batchLevels {
+		if !(cfg.batch > 0 && maxCtSlots >= 2) {
+			break
+		}
 		ls := maxCtSlots - 2
 		mk := func() ([]rlwe.Ciphertext, [][]complex128) {
 			cts := make([]rlwe.Ciphertext, cfg.batch)
 			vs := make([][]complex128, cfg.batch)
 			for i := range cts {
 				vs[i] = c18Vals(c, 1<<ls, ci)
-				pt := ckks.NewPlaintext(res, minLevel)
+				pt := ckks.NewPlaintext(res, blevel)
 				pt.LogDimensions = ring.Dimensions{Rows: 0, Cols: ls}
 				must(ecd.Encode(vs[i], pt))
 				ct, err := enc.EncryptNew(pt)
@@ -918,7 +1028,7 @@ func c18Pipeline(c *Ctx, cfg c18Cfg) {
 				return "ok"
 			})
 		}
-		args := fmt.Sprintf("%s batch=%d ctLogSlots=%d", tag, cfg.batch, ls)
+		args := fmt.Sprintf("%s batch=%d ctLogSlots=%d level=%d", tag, cfg.batch, ls, blevel)
 		r1 := run(eval)
 		detail := ""
 		if r1 != "ok" {
@@ -927,7 +1037,7 @@ func c18Pipeline(c *Ctx, cfg c18Cfg) {
 		c.Probe("batch_bootstrap", args+" measured=1", "C18-batch", detail)
 		r2 := Try(func() string { return run(eval.ShallowCopy()) })
 		detail = ""
-		if r2 != r1 {
+		if (r2 == "ok") != (r1 == "ok") || strings.SplitN(r2, ":", 2)[0] != strings.SplitN(r1, ":", 2)[0] {
 			detail = "original evaluator: " + r1 + ", ShallowCopy: " + r2
 		}
 		c.Probe("shallowcopy_matches", args, "C18-shallowcopy-xpow2invn1", detail)
